@@ -479,6 +479,15 @@ func encodeReq(k int, a *sReq) []byte {
 		req.Header.MaxResponseSize = int32(16 + h%1000)
 	}
 	req.Header.AttestationCapableIndicator = h%7 == 3
+	if h%4 == 1 {
+		req.Header.ServerCorrelationValue = fmt.Sprintf("srv-%d-%d", k, h)
+	}
+	if h%6 == 2 {
+		req.Header.AttestationType = []kmip.Enum{1, 2}
+	}
+	if h%5 == 3 {
+		req.Header.TimeStamp = time.Unix(int64(1000000000+h), 0) // the CLIENT's clock: the response bears the server's
+	}
 	if a.cred != 0 {
 		res := "fail"
 		if strings.HasPrefix(a.auth, "ok:") {
